@@ -40,6 +40,21 @@ needs.update({
  "C07-f2": ("psd getter recomputes only when modified is True (drops the 'psd is None' test); the sides setter still clears modified on a cold object", "sides assigned before psd was ever read, then psd read returns None"),
  "C07-f3": ("arburg overwrites the estimator's own complex data in place (two cooperating one-word edits)", "pburg, complex128 ndarray data, at least two computations on the same object"),
 })
+
+needs.update({
+ "C06-g1": ("centerdc reordering splits at a floating-point test k*(sampling/N) < sampling/2 instead of the integer N - N//2", "a numeric coincidence: even NFFT with a particular sampling (98, 196, 206 at sampling 1; 38, 76 at 0.1/1000/8000; 82 at 44100; about 5% of even NFFT up to 4096, never powers of two or NFFT < 38)"),
+ "C06-g2": ("get_converted_psd reads self.sides once before it refreshes an obsolete PSD (the refresh resets sides)", "compute; non-default sides; an invalidating assignment that does not reset sides; then get_converted_psd directly"),
+ "C06-g3": ("data setter writes the data length into Range.N, which is the second copy of NFFT", "data re-assigned on an existing object with NFFT different from the new data length, real data"),
+ "C06-h1": ("Nyquist bin detected by float equality frequencies('onesided')[-1] == sampling/2 instead of NFFT parity", "real data, one-sided stored PSD, conversion to twosided/centerdc and an unlucky even NFFT (98, 196, 206, 214 ... at sampling 1; 22, 44, 78 at 100; 82, 86 at 44100)"),
+ "C06-h2": ("cshift implemented with np.roll without axis (flattens 2-D input)", "a 2-D PSD matrix (frequency along axis 0, several columns) passed to cshift; 1-D input is bit-identical. NOT CLAIMED: the statement is about PSD vectors; 2-D input is outside it and the check does not generate it"),
+ "C06-h3": ("twosided_2_onesided unified with a 0/1 fold mask: 0*inf = NaN", "a conversion ending at onesided with inf exactly at the zero-frequency or Nyquist bin (e.g. the PSD of arma2psd([-1.]))"),
+ "C07-g1": ("re-entrancy guard around self() in the psd getter without try/finally", "a psd read whose computation raises (or str(p), which swallows it), then the attribute repaired and psd read again"),
+ "C07-g2": ("frequencies() caches its lists per sides and clears them only when df changes", "frequencies() called, then NFFT and sampling both changed by the same factor with no frequencies() call in between, then frequencies() again"),
+ "C07-g3": ("order setters write modified = modified or (x != old): numpy.True_ fails the `is True` tests", "a parametric estimator with a computed PSD, then an order assigned as a numpy integer, then a read"),
+ "C07-h1": ("same as C07-g3 (other author): numpy.True_ in the modified flag", "ar_order / ma_order assigned as numpy.int64 after a computation"),
+ "C07-h2": ("__computing guard in the psd getter without try/finally", "an attribute value that makes the lazy computation fail, a read that raises, the attribute repaired, another read"),
+ "C07-h3": ("pburg builds its Criteria object once in the constructor with the data length of that moment", "pburg with criteria != None, data re-assigned with a different length, read, and data for which the stale N moves the selected order"),
+})
 res = json.load(open('/verif/seeded/RESULTS.json'))
 for sid, (mech, need) in needs.items():
     d = '/verif/seeded/' + sid
